@@ -57,6 +57,11 @@ type groupClient struct {
 }
 
 func newGroupClient(t *testing.T, via string, rec *sim.Recorder) *groupClient {
+	return newGroupClientCfg(t, via, rec, 0)
+}
+
+// hold: the router's post-send pause / the delay before the simulated gateway acknowledges a tunnelling request
+func newGroupClientCfg(t *testing.T, via string, rec *sim.Recorder, hold time.Duration) *groupClient {
 	c := &groupClient{via: via}
 	c.sock = sim.NewMemSock(rec, false, 20*time.Microsecond)
 	c.sock.OnTx = func(f sim.Frame) {
@@ -67,7 +72,12 @@ func newGroupClient(t *testing.T, via string, rec *sim.Recorder) *groupClient {
 			c.mu.Lock()
 			c.sent = append(c.sent, f)
 			c.mu.Unlock()
-			c.sock.Arrive(sim.Build(&knxnet.TunnelRes{Channel: uint8(f.Ch), SeqNumber: uint8(f.Seq), Status: 0}))
+			ack := sim.Build(&knxnet.TunnelRes{Channel: uint8(f.Ch), SeqNumber: uint8(f.Seq), Status: 0})
+			if hold > 0 {
+				time.AfterFunc(hold, func() { c.sock.Arrive(ack) })
+			} else {
+				c.sock.Arrive(ack)
+			}
 		case "RoutingInd":
 			c.mu.Lock()
 			c.sent = append(c.sent, f)
@@ -75,7 +85,7 @@ func newGroupClient(t *testing.T, via string, rec *sim.Recorder) *groupClient {
 		}
 	}
 	if via == "router" {
-		gr := knx.NewGroupRouterOnSocket(c.sock, knx.RouterConfig{PostSendPauseDuration: 0})
+		gr := knx.NewGroupRouterOnSocket(c.sock, knx.RouterConfig{PostSendPauseDuration: hold})
 		c.send, c.in, c.stop = gr.Send, gr.Inbound(), gr.Close
 	} else {
 		gt, err := knx.NewGroupTunnelOnSocket(c.sock, knx.TunnelConfig{ResendInterval: 50 * time.Millisecond, ResponseTimeout: time.Second, HeartbeatInterval: time.Hour})
@@ -205,6 +215,50 @@ func TestC12(t *testing.T) {
 					}
 				}
 			}
+		}
+		// ---- concurrent senders: while one transmission holds the send lock (post-send pause / pending acknowledgement)
+		// further Sends queue up; each event must still leave as its own frame, exactly once
+		{
+			c := newGroupClientCfg(t, via, rec, 1500*time.Microsecond)
+			const G, K = 4, 6
+			evs := make([]GE, 0, G*K)
+			for i := 0; i < G*K; i++ {
+				l := 3 + rng.Intn(20)
+				ev := GE{Cmd: i % 3, Src: 0x1100 + i, Dst: 1 + rng.Intn(65535), Data: rbytes(rng, l)}
+				ev.Data[0], ev.Data[1], ev.Data[2] = i%64, 0xC5, i // (0xC5, i) identifies the event in the frame's payload
+				evs = append(evs, ev)
+			}
+			var wg sync.WaitGroup
+			errs := make([]int, len(evs))
+			start := make(chan struct{})
+			for g := 0; g < G; g++ {
+				wg.Add(1)
+				go func(g int) {
+					defer wg.Done()
+					<-start
+					for k := 0; k < K; k++ {
+						if c.send(evs[g*K+k].event()) != nil {
+							errs[g*K+k] = 1
+						}
+					}
+				}(g)
+			}
+			close(start)
+			wg.Wait()
+			time.Sleep(3 * time.Millisecond)
+			fs := c.take()
+			for i, ev := range evs {
+				r := groupRec{K: "group", Op: "out", Via: via, Ev: ev, F: cemiTo(nil), Msg: cemiTo(nil), GEv: noGE(), Err: errs[i]}
+				for _, f := range fs {
+					cv := cvOf(f)
+					if len(cv.Data) >= 3 && cv.Data[1] == 0xC5 && cv.Data[2] == i {
+						r.Frames++
+						r.F, r.Svc = cv, svcOf(f)
+					}
+				}
+				o.Rec(r)
+			}
+			c.stop()
 		}
 		// ---- the group channel closes when the underlying client's does
 		a.stop()
